@@ -6,9 +6,11 @@ mode (they are not part of the simulated history) unless stated otherwise.
 import _thread
 import hashlib
 import importlib
+import json
 import os
 import shutil
 import sys
+import time
 import tomllib
 
 from . import boot, disk, simfs, synth, watchdog
@@ -83,6 +85,10 @@ def gen_world_plan(rng, backends=BACKENDS, **synth_kw):
                                                  "econnaborted"])
     # locale encoding of the process (text files opened without an explicit encoding)
     plan["locale"] = rng.choice(["utf-8"] * 6 + ["ascii", "latin-1", "cp1252", "utf-8"])
+    # time zone of the process: UTC, 8 h west, 9 h east, half-hour offset
+    plan["tz"] = rng.choice(["UTC0"] * 5 + ["PST8", "PST8PDT", "JST-9", "IST-5:30", "XXX11"])
+    # the caller keeps one options dict per option set and passes the same object again
+    plan["share_option_dicts"] = rng.random() < 0.3
     return plan
 
 
@@ -93,6 +99,7 @@ class World:
         self.plan = plan
         self.root = boot.scratch_root()
         self.slot = slot
+        self._shared_opts = {}
         try:
             os.chdir(self.root)      # relative product paths are spelled from here
         except OSError:
@@ -106,6 +113,10 @@ class World:
             # encoding get
             SIM.io_error = plan.get("io_error", "eio")
             SIM.locale = plan.get("locale", "utf-8")
+            SIM.disk_full = False
+            # time zone of the process (POSIX TZ strings: no zone database needed)
+            os.environ["TZ"] = plan.get("tz", "UTC0")
+            time.tzset()
         self.product = synth.build(plan)
         self._place(plan["backend"], list(plan.get("dirs", [])), self.product.files)
 
@@ -220,8 +231,14 @@ class World:
         return opts
 
     def open(self, spelling=None, **kw):
+        opts = self.options(**kw)
+        if self.plan.get("share_option_dicts"):
+            # a caller that keeps ONE dict per option set and passes that same object to every
+            # open (what the library does to the dict stays done)
+            key = json.dumps(opts, sort_keys=True, default=str)
+            opts = self._shared_opts.setdefault(key, opts)
         with watchdog.deadline():
-            return code().open_alos2(self.url(spelling), backend_options=self.options(**kw))
+            return code().open_alos2(self.url(spelling), backend_options=opts)
 
     def cli(self, image, rpc=None, cache_root=None):
         """run the console entry point ``ceos-alos2-create-cache`` in-process"""
